@@ -143,8 +143,35 @@ def pattern_to_re(pattern):
 # ----------------------------------------------------------------------
 
 
+_TRUE, _FALSE = z3.BoolVal(True), z3.BoolVal(False)
+
+
+def _concrete_class(items, v):
+    negate = False
+    hit = False
+    for op, av in items:
+        if op == C.NEGATE:
+            negate = True
+        elif op == C.LITERAL:
+            hit = hit or v == av
+        elif op == C.RANGE:
+            hit = hit or av[0] <= v <= av[1]
+        elif op == C.CATEGORY:
+            if av == C.CATEGORY_SPACE:
+                hit = hit or v in WHITESPACE
+            elif av == C.CATEGORY_DIGIT:
+                hit = hit or 48 <= v <= 57
+            else:
+                raise Unsupported("category %r" % av)
+        else:
+            raise Unsupported("class item %r" % op)
+    return hit != negate
+
+
 def class_cond(items, c):
     """z3 Bool: code point term `c` is in the character class."""
+    if z3.is_int_value(c):
+        return _TRUE if _concrete_class(items, c.as_long()) else _FALSE
     negate = False
     parts = []
     for op, av in items:
@@ -172,6 +199,9 @@ def is_space(c):
 
 
 def atom_cond(op, av, c):
+    if z3.is_int_value(c) and op in (C.LITERAL, C.NOT_LITERAL, C.ANY):
+        v = c.as_long()
+        return _TRUE if (v == av if op == C.LITERAL else v != av if op == C.NOT_LITERAL else v != 10) else _FALSE
     if op == C.LITERAL:
         return c == av
     if op == C.NOT_LITERAL:
@@ -202,8 +232,12 @@ def match_alternatives(tree, chars, start):
         out = []
 
         def then(cond, p):
+            if z3.is_false(cond):
+                return  # a concrete mismatch: nothing continues from here
             for c2, e2 in seq(i + 1, p):
-                out.append((z3.And(cond, c2), e2))
+                if z3.is_false(c2):
+                    continue
+                out.append((c2 if z3.is_true(cond) else cond if z3.is_true(c2) else z3.And(cond, c2), e2))
 
         if op in (C.LITERAL, C.NOT_LITERAL, C.ANY, C.IN):
             if pos >= n:
@@ -232,9 +266,9 @@ def match_alternatives(tree, chars, start):
                 res = []
                 if (hi == C.MAXREPEAT or count < hi) and depth < n + 2:
                     for c1, e1 in match_alternatives(sub, chars, p):
-                        if e1 == p:
+                        if e1 == p or z3.is_false(c1):
                             continue
-                        res.extend(rep(count + 1, e1, z3.And(cond, c1), depth + 1))
+                        res.extend(rep(count + 1, e1, c1 if z3.is_true(cond) else cond if z3.is_true(c1) else z3.And(cond, c1), depth + 1))
                 if count >= lo:
                     res.append((cond, p))
                 return res
@@ -248,12 +282,23 @@ def match_alternatives(tree, chars, start):
 
 
 class SymMatch:
-    def __init__(self, text):
+    def __init__(self, text, start=0, end=None):
         self._text = text
+        self._start = start
+        self._end = start + len(text) if end is None else end
 
     def group(self, k=0):
         assert k == 0
         return self._text
+
+    def start(self, k=0):
+        return self._start
+
+    def end(self, k=0):
+        return self._end
+
+    def span(self, k=0):
+        return (self._start, self._end)
 
 
 def concrete_match_end(pattern, s):
